@@ -130,7 +130,7 @@ func C11(tier string) {
 			return deep + 1
 		}
 		if strings.Contains(s.name, "parallelism 11") {
-			return deep - 2
+			return 0 // 11 workers: 2,000+ states without any preemption
 		}
 		if s.threads >= 4 || strings.Contains(s.name, "parallelism 5") || strings.Contains(s.name, "x3 png jpeg webp") {
 			return deep - 1
